@@ -1286,6 +1286,7 @@ Plan gen_c19(const std::string &profile, uint64_t seed, const JV &opts) {
 		if (r.chance(0.3)) o.a.set("bin", JV::boolean(true));
 		if (r.chance(0.12)) o.a.set("plain", JV::boolean(true));
 		if (r.chance(0.35)) { JV fr = JV::arr(); int nf = 1 + (int)r.below(5); for (int k = 0; k < nf; k++) fr.push(JV::num((double)(r.chance(0.3) ? 0 : 1 + r.below(r.chance(0.5) ? 8 : 300)))); o.a.set("frags", fr); }
+		if (o.a.has("frags") && r.chance(0.12)) { o.a.set("omit_last", JV::boolean(true)); gc->alive = false; }
 		if (r.chance(0.08)) { static const char *ck[] = {"flip", "flip", "trunc", "junk"}; o.a.set("corrupt", JV::str(ck[r.below(4)])); o.a.set("cpos", JV::num(r.unit())); gc->alive = r.chance(0.5); }
 		JV sg = g.seg_for(m.size() + 8); if (sg.t != JV::Null) { o.a.set("seg", sg); o.a.set("gap", JV::num(0)); }
 		o.dt = g.pick_dt(); o.hold = r.chance(g.p_hold);
